@@ -4,6 +4,7 @@ import Proofs.DasFlat
 import Proofs.DasTotal
 import Proofs.DasIds
 import Proofs.DasCanon
+import Proofs.DasSrc
 /-!
   C08 — attributes survive the DAS.  Model: `PydapModel/DasText.lean` (follows parsers/das.py and
   responses/das.py *after* the three fixes: `float()` under Float32/Float64; size-0 values skipped everywhere;
@@ -523,5 +524,53 @@ set_option maxRecDepth 200000 in
 example : (roundTrip ⟨"d".toList, [], [Var.mk .struct "s".toList [("t".toList, .sc (.num "7".toList false))]
       [Var.mk .base "t".toList [] []]]⟩)
     = some (.ok ⟨[], [(["s".toList, "t".toList], []), (["s".toList], [])]⟩) := rfl
+
+/-! ### the tie by translation: the *source text* of `type_convert` / `get_type` names the model's types
+
+`Pydap.Gen.src_type_convert` and `Pydap.Gen.src_get_type` (PydapModel/Generated/DasSrc.lean) are the MiniPy trees of the whole
+bodies of responses/das.py `type_convert` and `get_type`, regenerated on every run by `harness/py2lean.py`.  A scalar of
+the model is seen as a str, an int (any) or a float (any, opaque): `scalarVal`.  Opaque inputs of `get_type`, exactly
+(`getTypeEnv`): `hasattr(values, "dtype")` (false on the model's plain Python values), the table lookup
+`NUMPY_TO_DAP2_TYPEMAP[values.dtype.char]`, `isinstance(values, Iterable)` (true for a str and for a list, false for a
+number) and the comprehension `[type_convert(val) for val in values]` (bound to the element-wise `typeConvert`, which
+`C08_source_type_convert` ties).  Carried by the source: the order of the three tests, the inlined call
+`type_convert(values)`, the precedence list, the stable sort by `precedence.index`, `types[0]`. -/
+
+open MiniPy in
+/-- `type_convert`: for every scalar the interpreted body returns the model's `typeConvert` -/
+theorem C08_source_type_convert (x : Scalar) (i : Int) (bits : Nat) :
+    runItem [("obj", scalarVal i bits x)] Gen.src_type_convert "@ret" = .ok (.str (codesOf (typeConvert x))) :=
+  src_type_convert_eq x i bits
+
+open MiniPy in
+/-- `get_type` on the values `build_attributes` hands it: for every scalar the interpreted body returns `typeConvert`,
+    for every non-empty list `listType` (String before Float64 before Int32) — the type `buildAttr` writes -/
+theorem C08_source_get_type (k : Text) (v : AVal) (hv : sizePos v = true) (hd : ∀ kvs, v ≠ .dict kvs)
+    (i : Int) (bits : Nat) (junk : MiniPy.Val) :
+    ∃ ty vals, buildAttr k v = .attr ty k vals ∧
+      runItem (getTypeEnv i bits junk v) Gen.src_get_type "@ret" = .ok (.str (codesOf ty)) := by
+  cases v with
+  | sc x => exact ⟨_, _, rfl, src_get_type_scalar x i bits junk⟩
+  | list xs =>
+    refine ⟨_, _, rfl, src_get_type_list xs ?_ i bits junk⟩
+    intro e; subst e; simp [sizePos] at hv
+  | dict kvs => exact absurd rfl (hd kvs)
+
+open MiniPy in
+/-- a value with a `dtype` (numpy) gets the table entry, before any other test -/
+theorem C08_source_get_type_numpy (v ty r1 r2 : MiniPy.Val) :
+    runItem [("values", v), ("@has_dtype", .bool true), ("@numpy_type", ty), ("@is_iterable", r1), ("@types", r2)]
+      Gen.src_get_type "@ret" = .ok ty :=
+  src_get_type_numpy v ty r1 r2
+
+open MiniPy in
+example : runItem (getTypeEnv 7 0 .none (.list [.num "1".toList false, .str "a".toList, .num "2.5".toList true]))
+    Gen.src_get_type "@ret" = .ok (.str (codesOf "String".toList)) := by rfl
+open MiniPy in
+example : runItem (getTypeEnv 7 0 .none (.list [.num "1".toList false, .num "2.5".toList true]))
+    Gen.src_get_type "@ret" = .ok (.str (codesOf "Float64".toList)) := by rfl
+open MiniPy in
+example : runItem [("obj", scalarVal 3 0 (.num "3".toList false))] Gen.src_type_convert "@ret"
+    = .ok (.str (codesOf "Int32".toList)) := by rfl
 
 end Pydap.C08
